@@ -144,6 +144,7 @@ func gen(r *hx.Rng, tier string, i int) []hx.Zs {
 	h := ti.GenHistory(r, cfg)
 	h[0] = initOp(ti, fam)
 	h = addFilterless(r, ti, fam, h)
+	h = nestTags(r, ti, h)
 	perType[string(ti.Function)]++
 	perFamily[fmt.Sprint(fam)]++
 	return h
@@ -229,6 +230,60 @@ func addFilterless(r *hx.Rng, ti *upd.TypeInfo, fam int, h []hx.Zs) []hx.Zs {
 			ins = []hx.Zs{{2}, op}
 		}
 		h = append(h[:pos:pos], append(ins, h[pos:]...)...)
+	}
+	return h
+}
+
+// filterAt returns the positions of the selector and elements values of the filter starting at pos
+// and the position behind it
+func filterAt(op hx.Zs, pos int) (elems []int, next int, ok bool) {
+	if pos >= len(op) {
+		return nil, pos, false
+	}
+	if op[pos] == 0 {
+		return nil, pos + 1, true
+	}
+	if pos+5 > len(op) {
+		return nil, pos, false
+	}
+	ns, ne := int(op[pos+3])*b2n(op[pos+1]), int(op[pos+4])*b2n(op[pos+2])
+	if pos+5+ns+ne > len(op) {
+		return nil, pos, false
+	}
+	for i := 0; i < ne; i++ {
+		elems = append(elems, pos+5+ns+i)
+	}
+	return elems, pos + 5 + ns + ne, true
+}
+
+// nestTags: in the elements part of delete filters, half of the named struct-valued fields get a tag
+// that names sub elements (2: the first one, 3: all of them, two levels deep) instead of the empty tag
+func nestTags(r *hx.Rng, ti *upd.TypeInfo, h []hx.Zs) []hx.Zs {
+	for i, op := range h {
+		if len(op) < 6 || op[0] != 1 {
+			continue
+		}
+		pos := 6 + int(op[4])*int(op[5])
+		_, pos, ok := filterAt(op, pos)
+		if !ok {
+			continue
+		}
+		elems, _, ok := filterAt(op, pos)
+		if !ok {
+			continue
+		}
+		var cp hx.Zs
+		for j, at := range elems {
+			if op[at] == 1 && subElements(ti, j) > 0 && r.Bool() {
+				if cp == nil {
+					cp = append(hx.Zs(nil), op...)
+				}
+				cp[at] = int64(2 + r.Intn(2))
+			}
+		}
+		if cp != nil {
+			h[i] = cp
+		}
 	}
 	return h
 }
@@ -363,6 +418,25 @@ func fixed(tier string) [][]hx.Zs {
 			out = append(out, []hx.Zs{initOp(lc, fam),
 				lc.EncodeUpdate(0, 1, 0, [][]int64{mk(1, 2, 1), mk(2, 1, 1)}, none, none), {2},
 				lc.EncodeUpdate(1, 1, wire, [][]int64{mk(0, 0, 2)}, part, none), {2}})
+		}
+		// a delete filter whose elements part names SUB elements of the structured fields (value: {number},
+		// timePeriod: {all, two levels}): the code removes the named field as a whole; after a DataCopy,
+		// on every family, persisting and not
+		for _, fam := range []int{0, 2, 3} {
+			full := func(id int64) []int64 { it := mk(id, 2, 1); it[3], it[4] = 2, 3; return it }
+			np := int64(0)
+			if fam == 3 {
+				np = 1
+			}
+			wire := int64(0)
+			if fam == 2 {
+				wire = 1
+			}
+			nested := func(tp, val int64) upd.Filter { return upd.Filter{Present: true, Elems: []int64{0, 0, 0, tp, val}} }
+			out = append(out, []hx.Zs{initOp(lc, fam),
+				lc.EncodeUpdate(0, 1, wire, [][]int64{full(1), full(2)}, none, none), {2},
+				lc.EncodeUpdate(0, np, 0, nil, none, nested(0, 2)), {2},
+				lc.EncodeUpdate(0, 1, wire, nil, none, nested(3, 3)), {2}})
 		}
 		// the same refused write without any filter and without persistence (bare FunctionData only)
 		out = append(out, []hx.Zs{initOp(lc, 0),
